@@ -254,6 +254,8 @@ func main() {
 		// The reader may carry state from one call to the next in the same process
 		// (a pooled buffer, a counter): a case that needs such history is replayed by
 		// repeating the same input; a violation on any repetition is genuine.
+		r.Watch(127, c.Src)
+		defer r.WatchDone(127)
 		for i := 0; i < 12000; i++ {
 			if vs, _ := checkSrc(c.Src); len(vs) > 0 {
 				if c.Key != "" {
@@ -264,6 +266,13 @@ func main() {
 			}
 		}
 		return nil
+	}
+	r.Stuck = func(in []byte) kit.V {
+		k := kit.Q(in)
+		if len(k) > 200 {
+			k = fmt.Sprintf("%s...(%d bytes)", k[:200], len(in))
+		}
+		return kit.V{Key: "no-return src=" + k, What: "ReadImports of " + k + " does not return", Case: kase{Src: in}}
 	}
 	r.ConcurrentReplay = true
 	r.Noise = func(i int) {
@@ -283,7 +292,9 @@ func main() {
 		go func() {
 			defer wg.Done()
 			for src := range ch {
+				r.Watch(w, []byte(src))
 				vs, valid := checkSrc([]byte(src))
+				r.WatchDone(w)
 				for _, v := range vs {
 					r.Violation(v.Key, v.What, v.Case)
 				}
@@ -367,7 +378,9 @@ func main() {
 				}
 				src := make([]byte, 0, len(pre)+len(fill)+len(post))
 				src = append(append(append(src, pre...), fill...), post...)
+				r.Watch(w, src)
 				vs, valid := checkSrc(src)
+				r.WatchDone(w)
 				for _, v := range vs {
 					r.Violation(v.Key, v.What, v.Case)
 				}
@@ -418,7 +431,9 @@ func main() {
 			for j := range lch {
 				src := []byte(j.pre + j.fill + j.post)
 				atomic.AddInt64(&longs, 1)
+				r.Watch(w, src)
 				vs, valid := checkSrc(src)
+				r.WatchDone(w)
 				for _, v := range vs {
 					// the key names the shape, not the 4 KiB of filler
 					v.Key = fmt.Sprintf("%s long-element pre=%q kind=%q len=%d", strings.SplitN(v.Key, " ", 2)[0], j.pre, j.fill[:3], len(j.fill))
@@ -467,7 +482,9 @@ func main() {
 		if n&0xffff == 0 && r.Expired() {
 			atomic.StoreInt32(&stop, 1)
 		}
+		r.Watch(w, s)
 		vs, valid := checkSrc(s)
+		r.WatchDone(w)
 		for _, v := range vs {
 			r.Violation(v.Key, v.What, v.Case)
 		}
